@@ -107,8 +107,13 @@ def strategies_check(ctx, c, outs):
                         if not c.get("nonunit"):
                             qa = qa.unit
                         out["outer"] = qa.outer(vb).data
-                        for ch in c["chunks"]:
-                            out[f"outer_lazy{ch}"] = qa.outer(vb, lazy=True, chunk_size=ch, progressbar=False).data
+                        if not c.get("nonunit") or c.get("nonunit_lazy"):
+                            for ch in c["chunks"]:
+                                out[f"outer_lazy{ch}"] = qa.outer(vb, lazy=True, chunk_size=ch, progressbar=False).data
+                        if sa == sb:
+                            out["qv_mul"] = (qa * vb).data
+                            out["qv_mul_elementwise"] = np.stack([(qa[i] * vb[i]).data.reshape(3) for i in np.ndindex(*sa)]
+                                                                 ).reshape(sa + (3,))
                         out["dot_outer"] = vb.dot_outer(vb)
                         for ch in c["chunks"][:2]:
                             out[f"dot_outer_lazy{ch}"] = vb.dot_outer(vb, lazy=True, chunk_size=ch, progressbar=False)
@@ -172,7 +177,7 @@ SITES = {
     "strategies": sites.Site("strategies", "prop", strategies_check),
     "symmetry_lazy": sites.Site("symmetry_lazy", "prop", symmetry_check),
 }
-PREDICATES = {"c18_nonunit_quaternion_vector": lambda case: bool(case.get("nonunit")) and case.get("op") == "qv"}
+PREDICATES = {"c18_nonunit_quaternion_vector": lambda case: bool(case.get("nonunit_lazy")) and case.get("op") == "qv"}
 SHAPES = [(1,), (2,), (3,), (1, 2), (2, 1), (2, 2), (1, 1, 2), (5,)]
 
 
@@ -205,9 +210,17 @@ def generate(ctx):
     ctx.sample({"site": "strategies", **c})
     # non-unit quaternions times vectors (Quaternion class only): eager normalises, see known finding
     c = {"op": "qv", "sa": [2], "sb": [2], "A": [[2.0, 0.0, 0.0, 2.0], [1.0, 2.0, 2.0, 4.0]], "B": [GQ.vec(rng), GQ.vec(rng)],
-         "chunks": [1, 20], "nonunit": True}
-    ctx.count("strategies/qv/nonunit", ("stn", 0))
+         "chunks": [1, 20], "nonunit": True, "nonunit_lazy": True}
+    ctx.count("strategies/qv/nonunit_lazy", ("stn", 0))
     yield "strategies", c
+    # non-unit quaternions: eager / element-wise results must not depend on the backend or dtype
+    for r in range(4 if ctx.tier == "quick" else 40):
+        sa = SHAPES[rng.integers(len(SHAPES))]
+        n = int(np.prod(sa))
+        c = {"op": "qv", "sa": list(sa), "sb": list(sa), "A": [[float(x) for x in GQ.int_quat(rng)] for _ in range(n)],
+             "B": [GQ.vec(rng) for _ in range(n)], "chunks": [1], "nonunit": True}
+        ctx.count("strategies/qv/nonunit_backends", ("stb", r, tuple(c["A"][0])))
+        yield "strategies", c
     m = 12 if ctx.tier == "quick" else 150
     gs = groups()
     small = [i for i, g in enumerate(gs) if g.size <= 12]
